@@ -366,7 +366,7 @@ def finitize(e, idxs, cache=None, budget=None):
     budget = budget if budget is not None else cache.setdefault("__budget__", [60000])
     k = e.get_id()
     if k in cache:
-        return cache[k]
+        return cache[k][1]
     budget[0] -= 1
     if budget[0] < 0:
         raise TooBig()
@@ -383,10 +383,23 @@ def finitize(e, idxs, cache=None, budget=None):
         r = z3.And(*insts) if e.is_forall() else z3.Or(*insts)
     elif z3.is_app(e) and e.num_args() > 0:
         ch = [finitize(c, idxs, cache) for c in e.children()]
-        r = e.decl()(*ch)
+        kd = e.decl().kind()
+        # n-ary applications cannot be rebuilt through the (binary) declaration
+        if kd == z3.Z3_OP_AND:
+            r = z3.And(*ch)
+        elif kd == z3.Z3_OP_OR:
+            r = z3.Or(*ch)
+        elif kd == z3.Z3_OP_ADD:
+            r = z3.Sum(*ch)
+        elif kd == z3.Z3_OP_MUL:
+            r = z3.Product(*ch)
+        elif kd == z3.Z3_OP_DISTINCT:
+            r = z3.Distinct(*ch)
+        else:
+            r = e.decl()(*ch)
     else:
         r = e
-    cache[k] = r
+    cache[k] = (e, r)     # keeps `e` alive: z3 reuses the ids of freed terms, a stale entry would have the wrong sort
     return r
 
 
